@@ -27,7 +27,20 @@ use crate::ni::hazmat as intrinsics;
     any(target_arch = "x86", target_arch = "x86_64", target_arch = "aarch64"),
     not(aes_force_soft)
 ))]
+#[cfg(not(block_ciphers_verif))]
 cpufeatures::new!(aes_intrinsics, "aes");
+#[cfg(all(
+    block_ciphers_verif,
+    any(target_arch = "x86", target_arch = "x86_64", target_arch = "aarch64"),
+    not(aes_force_soft)
+))]
+mod aes_intrinsics {
+    cpufeatures::new!(real, "aes");
+    #[inline]
+    pub fn get() -> bool {
+        real::get() && !crate::verif::FORCE_OFF.load(core::sync::atomic::Ordering::Relaxed)
+    }
+}
 
 /// Execute the provided body if CPU intrinsics are available.
 // TODO(tarcieri): more `cfg-if`-like macro with an else branch?
